@@ -49,6 +49,7 @@ import (
 	"github.com/containerd/stargz-snapshotter/fs/config"
 	commonmetrics "github.com/containerd/stargz-snapshotter/fs/metrics/common"
 	"github.com/containerd/stargz-snapshotter/fs/source"
+	"github.com/containerd/stargz-snapshotter/util/verifhook"
 	rhttp "github.com/hashicorp/go-retryablehttp"
 	digest "github.com/opencontainers/go-digest"
 	ocispec "github.com/opencontainers/image-spec/specs-go/v1"
@@ -483,6 +484,7 @@ func (f *httpFetcher) fetch(ctx context.Context, rs []region, retry bool) (multi
 	f.urlMu.Lock()
 	url := f.url
 	f.urlMu.Unlock()
+	verifhook.Point("remote.fetch.afterURL", f, url)
 	req, err := http.NewRequestWithContext(ctx, "GET", url, nil)
 	if err != nil {
 		return nil, err
@@ -556,6 +558,7 @@ func (f *httpFetcher) check() error {
 	f.urlMu.Lock()
 	url := f.url
 	f.urlMu.Unlock()
+	verifhook.Point("remote.check.afterURL", f, url)
 	req, err := http.NewRequestWithContext(ctx, "GET", url, nil)
 	if err != nil {
 		return fmt.Errorf("check failed: failed to make request: %w", err)
@@ -601,6 +604,7 @@ func (f *httpFetcher) refreshURL(ctx context.Context) error {
 	f.url = newURL
 	f.header = headers
 	f.urlMu.Unlock()
+	verifhook.Point("remote.refresh.done", f, newURL)
 	return nil
 }
 
